@@ -215,6 +215,29 @@ class TxWire(Family):
             tx.nVersion = m['version']
             if tx.serialize() != enc:
                 raise Viol('mutable tx: serialize() after restoring the fields', enc[:120], tx.serialize()[:120])
+            if not has:
+                # a witness stack is filled in IN PLACE on a mutable transaction that was serialised without one (its default
+                # witness object holds one empty entry per input): the bytes switch to the BIP144 form; other mutable
+                # transactions with the same number of inputs (deserialised from the legacy encoding, or newly built) are
+                # not affected; emptying the slot switches back
+                from bitcoin.core import CTxInWitness
+                from bitcoin.core.script import CScriptWitness
+                mt = CMutableTransaction.deserialize(enc)
+                slots = getattr(mt.wit, 'vtxinwit', None)
+                if isinstance(slots, list) and len(slots) == len(m['vin']):
+                    mt.serialize()
+                    mt.has_witness()
+                    slots[-1] = CTxInWitness(CScriptWitness((b'filled', b'in place')))
+                    mw = dict(m, wit=[[] for _ in m['vin'][:-1]] + [[b'filled', b'in place']])
+                    if mt.serialize() != W.encode_tx(mw):
+                        raise Viol('mutable tx: serialize() after a witness stack was filled in place is not the BIP144 form of the current fields', W.encode_tx(mw)[:120], mt.serialize()[:120])
+                    other = CMutableTransaction.deserialize(enc)
+                    built = C.lib_tx(m, mutable=True, witobj='absent')
+                    if other.serialize() != enc or built.serialize() != enc or other.has_witness() or built.has_witness():
+                        raise Viol('mutable tx: after a witness was filled in place on one transaction, ANOTHER witness-less transaction with the same number of inputs serialises with a witness', enc[:120], other.serialize()[:120])
+                    slots[-1] = CTxInWitness()
+                    if mt.serialize() != enc:
+                        raise Viol('mutable tx: serialize() after the witness slot was emptied again', enc[:120], mt.serialize()[:120])
         cls = CMutableTransaction if case['mut'] else CTransaction
         k = len([p for p in s if p != 'witobj'])
         if k <= 1:
